@@ -14,7 +14,7 @@ func init() {
 		ID:          "C04",
 		Explanation: "(R4.1) auxiliary relaxation variables never leak: on every path of every Interface.Optimal wrapper outside package solver, a result obtained from the inner solver leaves the method (return or send) only after its Model was cut at the first relaxation variable, unless its status was tested not to be Sat; (R4.2) in maxsat.New, on every path on which a constraint is soft, the blocking literal is appended and gets a coefficient equal to the constraint's degree (implicit unit coefficients are only kept when the degree is 1); (R4.3) Problem.Solve inserts a binding into the returned model only for named variables.",
 		NotDecided:  "minimality of the reported cost, the WCNF top-weight semantics on concrete values, and variable renumbering.",
-		Rules:       []ruleFn{ruleR4_1, ruleR4_2, ruleR4_3},
+		Rules:       []ruleFn{ruleR4_1, ruleR4_2, ruleR4_3, ruleR4_4},
 	})
 }
 
@@ -368,5 +368,69 @@ func ruleR4_3(w *World, r *Report) {
 	})
 	if n == 0 {
 		r.Bad("R4.3", "(*maxsat.Problem).Solve model insertion", w.Pos(fn.Pos()), "Solve never fills the model it returns")
+	}
+}
+
+// R4.4: the model of the inner solver has at least firstRelax entries.
+func ruleR4_4(w *World, r *Report) {
+	r.Rule("R4.4", "wherever a MaxSAT solver is built with firstRelax = n, its inner problem is declared with at least n variables (built by a constructor that receives the same n as variable count), so that cutting the model at firstRelax stays within its length", 1)
+	n := 0
+	for _, fn := range w.Fns {
+		if w.PkgName(fn) != "maxsat" {
+			continue
+		}
+		for _, st := range storesToField(fn, "maxsat.Solver", "firstRelax") {
+			n++
+			key := w.FuncName(fn) + " declares the user variables to the inner problem"
+			X := st.Val
+			_, _, base, _ := fieldOf(st.Addr)
+			// the inner solver stored into the same value
+			var inner ssa.Value
+			for _, s2 := range storesToField(fn, "maxsat.Solver", "solver") {
+				if _, _, b2, _ := fieldOf(s2.Addr); b2 == base {
+					inner = s2.Val
+				}
+			}
+			ok := false
+			why := "the inner solver is not built from a problem declared with the same variable count"
+			if c, isCall := inner.(*ssa.Call); isCall && len(c.Call.Args) == 1 {
+				// solver.New(prob): prob = ParseSliceNb(clauses, X) or any constructor taking X as an int argument
+				var seen func(v ssa.Value, d int) bool
+				seen = func(v ssa.Value, d int) bool {
+					if d > 4 {
+						return false
+					}
+					switch p := v.(type) {
+					case *ssa.Call:
+						for _, a := range p.Call.Args {
+							if a == X && typeShort(a.Type()) == "int" {
+								// the callee must use it as the declared variable count: it stores it into Problem.NbVars
+								for _, callee := range w.Callees[p] {
+									for _, s3 := range storesToField(callee, "solver.Problem", "NbVars") {
+										if pi := paramIndex(callee, s3.Val); pi >= 0 {
+											return true
+										}
+									}
+								}
+							}
+						}
+					case *ssa.Phi:
+						for _, e := range p.Edges {
+							if !seen(e, d+1) {
+								return false
+							}
+						}
+						return len(p.Edges) > 0
+					}
+					return false
+				}
+				ok = seen(c.Call.Args[0], 0)
+			}
+			r.Check(ok, "R4.4", key, w.InstrPos(st), "the problem constructor receives the declared variable count",
+				why+": when the declared count exceeds the variables actually used (and no soft clause adds relaxation variables) the model is shorter than firstRelax and cutting it panics")
+		}
+	}
+	if n == 0 {
+		r.Unk("R4.4", "maxsat.Solver construction", "-", "no function of package maxsat sets Solver.firstRelax")
 	}
 }
